@@ -353,6 +353,11 @@ def getitem_and_init(chk: Check) -> int:
         n_paths += len(outs)
         want = [decay_of(t.attrs["__obj__"], ex.as_obj(n)) for t in ts for n in (0, 1)]
         post = []
+        opaque = [oc for oc in outs if oc.kind != "raise" and not isinstance(oc.st.ghost["roots"]["self"].attrs.get("_DynamicsSelector__choices", {}), dict)]
+        if opaque:  # the map was built by a call the executor does not model: its content is unknown, not wrong
+            chk.struct("init[2_transitions_x_2_nodes].result_visible_to_the_executor", False, FINIT, lemma=True, replay=S.search_selector,
+                       witness=str(opaque[0].st.ghost["roots"]["self"].attrs.get("_DynamicsSelector__choices"))[:200])
+            outs = []
         for oc in outs:
             pc = pc_of(oc.st)
             if oc.kind == "raise":
@@ -362,7 +367,8 @@ def getitem_and_init(chk: Check) -> int:
             keys = [ex.as_obj(k) for k in ch]
             post.append(z3.Implies(pc, z3.And(z3.BoolVal(bool(ch) and all(v is create_non_dynamic for v in ch.values())), *[z3.Or(*[k == d for k in keys]) for d in want],
                                               *[z3.Or(*[k == d for d in want]) for k in keys])))
-        chk.smt("init.ens.every_node_decay_maps_to_create_non_dynamic_and_nothing_else", [], conj(post), function=FINIT, replay=S.search_selector, tactics=("default",))
+        if post:
+            chk.smt("init.ens.every_node_decay_maps_to_create_non_dynamic_and_nothing_else", [], conj(post), function=FINIT, replay=S.search_selector, tactics=("default",))
     return n_paths
 
 
